@@ -209,7 +209,18 @@ class Run:
                 if c.get("deid") == "k":
                     dst_ent = dst_ent.children[0]
                 src_ent = ents2[c["src"]] if c.get("seid") == "f" else ents[c["src"]]
-                w.connect(src_ent, dst_ent, *pairs, **kw)
+                if cfg.get("badpair") and pairs:
+                    # the user's connect() call names one more pair that mosaik has to reject (an
+                    # attribute that does not exist) and handles the error: the valid pairs of the
+                    # call must be connected exactly as if they had been given alone
+                    from mosaik.exceptions import ScenarioError
+                    try:
+                        w.connect(src_ent, dst_ent, *(pairs + [("zz_missing", c["dattr"])]), **kw)
+                        raise AssertionError("connect() accepted an unknown source attribute")
+                    except ScenarioError:
+                        pass
+                else:
+                    w.connect(src_ent, dst_ent, *pairs, **kw)
         for s in scen["sims"]:
             if s.get("init_event") is not None:
                 w.set_initial_event(s["sid"], s["init_event"])
